@@ -181,39 +181,49 @@
           [(r "start") (r "stop")])
       [(r "start") (r "stop") (r "step")]))))))
 
-(hy-repr-register
-  hy.models.FComponent
-  (fn [x] (+
+(defn _fstring-text [s bracketed]
+  "Literal text of an f-string, as it's written between the delimiters."
+  (setv s (hy.models.String (str s)))
+  (.replace
+    (.replace (if bracketed (str s) (cut (hy-repr s) 1 -1)) "{" "{{")
+    "}" "}}"))
+
+(defn _fcomponent-repr [x bracketed]
+  (+
     "{"
     (hy-repr (get x 0))
     (if x.conversion f" !{x.conversion}" "")
     (if (> (len x) 1)
-      (+ " :" (if (isinstance (get x 1) hy.models.String)
-        (get x 1)
-        (hy-repr (get x 1))))
+      ; The format spec can have several parts: literal text and
+      ; nested replacement fields.
+      (+ " :" #* (gfor part (cut x 1 None)
+        (if (isinstance part hy.models.FComponent)
+          (_fcomponent-repr part bracketed)
+          (_fstring-text part bracketed))))
       "")
-    "}")))
+    "}"))
+
+(hy-repr-register
+  hy.models.FComponent
+  (fn [x] (_fcomponent-repr x False)))
 
 (hy-repr-register
   hy.models.FString
   (fn [fstring]
-    (if (is-not None fstring.brackets)
+    (setv bracketed (is-not None fstring.brackets))
+    (setv parts (lfor component fstring
+      (if (isinstance component hy.models.FComponent)
+        (_fcomponent-repr component bracketed)
+        (_fstring-text component bracketed))))
+    (if bracketed
       (+ "#[" fstring.brackets "["
-         #* (lfor component fstring
-                  (if (isinstance component hy.models.String)
-                      (.replace (.replace (str component)
-                        "{" "{{")
-                        "}" "}}")
-                      (hy-repr component)))
+         ; The reader drops a newline that directly follows the
+         ; opening delimiter, so protect a leading newline.
+         (if (and parts (.startswith (get parts 0) "\n")) "\n" "")
+         #* parts
          "]" fstring.brackets "]")
       (+ (if fstring.is-tstring "t" "f") "\""
-         #* (lfor component fstring
-                  :setv s (hy-repr component)
-                  (if (isinstance component hy.models.String)
-                      (.replace (.replace (cut s 1 -1)
-                        "{" "{{")
-                        "}" "}}")
-                      s))
+         #* parts
          "\""))))
 
 (when hy.compat.PY3_14
